@@ -15,7 +15,7 @@ WANT = [
     r"^cache\.(has|get|get_storage|lookup\.cached|lookup\.nocache)$", r"^accessors\.",
     r"^snapshot\.save\.", r"^spl\.", r"^basin\.uf\.", r"^basin\.kruskal", r"^pool\.blocks_ctor\.size$", r"^pool\.blocks_start$",
     # basin graph: every table access of one neighbour visit / one node / the root pass of connect_basins (e.g. outlets()[basin of a masked node])
-    r"^basin\.connect\.(visit\.lowest|root\.node|root\.loop|switch)$", r"^basin\.sinks\.basic\.(step|loop)$",
+    r"^basin\.connect\.(visit\.lowest|root\.node|root\.loop|switch|loop\.pos)$", r"^basin\.sinks\.basic\.(step|loop)$",
     # widths of the receiver / donor tables are fixed at construction from the operator sequence: these functional clauses ARE the
     # memory-safety precondition of the routers (C05.width), see FUNCTIONAL below
     r"^opseq\.(ctor|impl_width|update_routes)$",
@@ -23,7 +23,9 @@ WANT = [
     r"^mrouter\.loop\.nb2$", r"^sweeps\.basins\.labels$", r"^sweeps\.accumulate\.loop\.eq\.w1$",
 ]
 # groups whose FUNCTIONAL obligations count under C08 as well (they state a size / width that later accesses rely on)
-FUNCTIONAL = r"^opseq\.(ctor|impl_width)$"
+# ... and basin.connect.loop.pos: its invariant `a defined entry of m_edge_positions is the index of an existing edge` is what keeps m_edges[position] in range
+# (a stale position from an earlier call indexes beyond the vector's size: seeded change C08_3)
+FUNCTIONAL = r"^(opseq\.(ctor|impl_width)|basin\.connect\.loop\.pos)$"
 
 
 def _collect():
